@@ -148,3 +148,7 @@ package transport
 //@   at call openSession#1 assert #strict-checks-against-the-known-hosts-file t.SSHArgs.StrictKey ==> t.SSHArgs.KnownHostsFile != "" && arg1.HostKeyCallback == knownHostsCB(strs(t.SSHArgs.KnownHostsFile))
 //@   at call openSession#1 assert #checking-skipped-only-when-disabled !t.SSHArgs.StrictKey ==> arg1.HostKeyCallback == insecureCB()
 //@   at call openSession#1 assert #configured-user-and-timeout arg1.User == a.User && arg1.Timeout == a.TimeoutSocket
+
+//@ func transport.Implementation.Read
+//@   trusted
+//@   pure
